@@ -162,6 +162,72 @@ func ruleR25_1(c *Check) {
 		r.Check(w.fieldOf(s.(*ast.CallExpr).Args[0]) == w.Field("badger.Stream.readTs"), p, "managed producers read at the stream's timestamp", s, "NewTransactionAt argument is "+short(w, s.(*ast.CallExpr).Args[0]))
 	}
 	r.Check(true, p, "producer machinery analysed", nil, "")
+	// positive side: a producer's read timestamp is a field of the Stream, and that field is assigned per run in
+	// Orchestrate outside any loop, from one transaction that stays open until Orchestrate returns
+	rts := w.Field("badger.Txn.readTs")
+	orc := w.F("badger.Stream.Orchestrate")
+	for _, s := range p.Sites(selStore(rts)) {
+		as := s.(*ast.AssignStmt)
+		fld := w.fieldOf(rhsFor(w, as, rts))
+		okFld := fld != nil && fld.Pkg() != nil && w.mentions(as, fld) && isFieldOf(w, fld, "badger.Stream")
+		r.Check(okFld, p, "producer reads at a timestamp stored in the Stream", s, "producer's readTs is "+short(w, rhsFor(w, as, rts)))
+		if !okFld {
+			continue
+		}
+		n := 0
+		for _, st := range orc.Sites(selStore(fld)) {
+			n++
+			sas := st.(*ast.AssignStmt)
+			fromTxn := w.fieldOf(sas.Rhs[0]) == rts
+			r.Check(fromTxn && !insideLoop(w, orc, st), orc, "run timestamp taken once per run from one transaction", st, "Stream."+fld.Name()+" is not assigned once, outside loops, from a transaction's read timestamp")
+			// that transaction is discarded only at the end (defer)
+			okDefer := false
+			orc.walk(func(x ast.Node) bool {
+				if d, ok := x.(*ast.DeferStmt); ok && w.Callee(d.Call) == types.Object(w.Func("badger.Txn.Discard")) {
+					okDefer = true
+				}
+				return true
+			})
+			r.Check(okDefer, orc, "snapshot transaction stays open for the whole run", st, "the transaction whose timestamp the producers use is not kept open (no deferred Discard)")
+			// and it is taken before the producers start
+			spawn := selPred("go producer", func(w *World, fn *Fn, x ast.Node) bool {
+				g, ok := x.(*ast.GoStmt)
+				if !ok {
+					return false
+				}
+				if lit, ok := g.Call.Fun.(*ast.FuncLit); ok {
+					return len(w.ByLit[lit].Sites(selCallName(w, "badger.Stream.produceKVs"))) > 0
+				}
+				return false
+			})
+			r.DomAll(orc, "producers started after the run timestamp is fixed", spawn, 0, selNode(st), 0, Excuse{Cond: func(e ast.Expr) bool {
+				be, ok := e.(*ast.BinaryExpr)
+				return ok && be.Op == token.EQL && w.fieldOf(be.X) == w.Field("badger.Stream.readTs")
+			}, Val: false})
+		}
+		r.Exists(n == 1, orc, "run timestamp assigned in Orchestrate", nil, "Stream."+fld.Name()+" is not assigned in Orchestrate")
+		// the producer must not release the read mark a second time
+		okDone := false
+		for _, d := range p.Sites(selStore(w.Field("badger.Txn.doneRead"))) {
+			if tv := w.Info.Types[d.(*ast.AssignStmt).Rhs[0]]; tv.Value != nil && tv.Value.String() == "true" {
+				okDone = true
+			}
+		}
+		r.Check(okDone, p, "producer transactions do not release the shared read mark", s, "a producer's Discard would mark the shared read timestamp done although only the snapshot transaction began it")
+	}
+}
+
+func isFieldOf(w *World, fld *types.Var, typeName string) bool {
+	st, ok := w.Named(typeName).Underlying().(*types.Struct)
+	if !ok {
+		return false
+	}
+	for i := 0; i < st.NumFields(); i++ {
+		if st.Field(i) == fld {
+			return true
+		}
+	}
+	return false
 }
 
 func ruleR25_2(c *Check) {
